@@ -22,7 +22,7 @@ ID = "C09"
 TECHNIQUE = "stateless exploration (DFS, prefix replay) of every linearisation of scope enter/exit events over scope trees on the real metrics/completion protocol; event-order oracle"
 RULE = (
     "all rooted ordered scope trees with <= N nodes x scope kind (sync/async) x completion "
-    "callback kind (all sync / alternating sync-async) x placement of every non-root node "
+    "callback kind (all sync / alternating sync-async / decorated: functools.wraps async wrapper, functools.partial) x placement of every non-root node "
     "{inline, ctx.spawn, plain create_task}; every linearisation of the enter/exit events, for <= 3 nodes also with two events in one loop iteration; plus a "
     "nested scope whose suspended disposable enter is cancelled; "
     "non-trivial = some child runs in another task than its parent"
@@ -71,6 +71,13 @@ def programs(tier: str):
                             continue
                         labels = [(kinds[0], "root")] + [(kinds[i], places[i - 1]) for i in range(1, n)]
                         yield {"tree": _label(shape, labels), "cb": cb}
+    # completion handlers that are decorated callables (async functools.wraps wrapper around a sync
+    # function; functools.partial)
+    for n in (1, 2, 3):
+        for shape in tree_shapes(n):
+            for places in itertools.product(("inline", "create"), repeat=n - 1):
+                labels = [("a", "root")] + [("a" if i % 2 else "s", places[i - 1]) for i in range(1, n)]
+                yield {"tree": _label(shape, labels), "cb": "wrapped"}
     # two enter / exit events landing in one loop iteration (a scope is left in the very iteration
     # in which a task that inherited its context creates a nested one), trees with <= 3 nodes and
     # at least one task-placed node
@@ -192,6 +199,19 @@ def execute(program, ch: Chooser) -> Result:  # noqa: C901, PLR0915
             nodes[nid]["cbs"].append({"seq": seq(), "completed": metrics.is_completed, "time": metrics.time, "segment": len(w.trace)})
             events.append(("completed", nid))
 
+        if program["cb"] == "wrapped":
+            # decorated handlers: an async wrapper around a sync function (functools.wraps, like
+            # haiway.wrap_async), and the other way round is not a thing; odd nodes get the wrapper
+            import functools
+
+            if nid % 2 == 1:
+
+                @functools.wraps(record)
+                async def wrapped(metrics):
+                    record(metrics)
+
+                return wrapped
+            return functools.partial(record)
         if is_async:
 
             async def acb(metrics):
